@@ -38,7 +38,8 @@ OUTSIDE = "/outside/target"
 
 V4 = "6f1e3a52-8c07-4d2b-9f3e-0a1b2c3d4e5f"
 CONTENTS = {"canonical": V4, "legacy-unhyphenated": V4.replace("-", ""), "uppercase": V4.upper(), "trailing-newline": V4 + "\n",
-            "uuid1-style": "c3e7b5a0-1f2d-11ec-9621-0242ac130002", "empty": "", "garbage": "not-a-uuid"}
+            "uuid1-style": "c3e7b5a0-1f2d-11ec-9621-0242ac130002", "empty": "", "garbage": "not-a-uuid",
+            "blank-first-line": "\n" + V4 + "\n", "crlf": V4 + "\r\n", "padded": "  " + V4 + " \n"}
 RHSM = {"none": None, "canonical": "0b5d3c11-4a6e-4f0a-8d21-aabbccddeeff", "uppercase-unhyphenated": "0B5D3C114A6E4F0A8D21AABBCCDDEEFF",
         "uuid1-style": "d4f8c6b1-2a3e-11ec-8f00-0242ac130003"}
 
@@ -59,6 +60,7 @@ class SymFS(object):
         self.target = dict(targets)   # link path -> target path
         self.log = []                 # (op, path)
         self.outside = {}             # state of link targets outside the tracked set: path -> content or None
+        self.removed_outside = []
         self.counter = [0]
 
     # --- helpers
@@ -110,7 +112,20 @@ class SymFS(object):
                 raise OSError(errno.ENOENT, "No such file or directory", p)
             self.kind[p] = ABSENT
             return
+        if self.outside.get(p) is not None:
+            self.outside[p] = None        # a file outside the tracked set is deleted
+            self.removed_outside.append(p)
+            return
         raise OSError(errno.ENOENT, "No such file or directory", p)
+
+    def realpath(self, p):
+        """follow symlinks at the final component (directories are real directories in this model)"""
+        for _ in range(8):
+            if p in self.kind and self._t(_and(self.dir_exists(posixpath.dirname(p)), self._is(p, LINK, DANGLING))):
+                p = self.target[p]
+            else:
+                break
+        return p
 
     def resolve_for_write(self, p):
         """the path a write to p lands on (follows a symlink, also a dangling one)"""
@@ -184,6 +199,21 @@ class FakePath(object):
     def isfile(self, p):
         return self.fs.isfile(p)
 
+    def realpath(self, p):
+        return self.fs.realpath(p)
+
+    abspath = staticmethod(posixpath.abspath)
+    normpath = staticmethod(posixpath.normpath)
+    isabs = staticmethod(posixpath.isabs)
+    split = staticmethod(posixpath.split)
+    splitext = staticmethod(posixpath.splitext)
+    sep = "/"
+
+    def __getattr__(self, name):
+        if NATIVE:
+            raise AttributeError(name)
+        raise core.Inconclusive("os.path.%s is not part of the file-system model" % name)
+
 
 class FakeOS(object):
     def __init__(self, fs):
@@ -198,6 +228,11 @@ class FakeOS(object):
 
     def getenv(self, *a, **k):
         return os.getenv(*a, **k)
+
+    def __getattr__(self, name):
+        if NATIVE:
+            raise AttributeError(name)
+        raise core.Inconclusive("os.%s is not part of the file-system model" % name)
 
 
 class FakeFile(object):
@@ -221,8 +256,30 @@ class FakeFile(object):
     def write(self, d):
         self.buf.append(d)
 
-    def read(self):
-        return self.data
+    def _rd(self):
+        if not hasattr(self, "_sio"):
+            self._sio = io.StringIO(self.data, newline=None) if isinstance(self.data, str) else io.BytesIO(self.data)
+        return self._sio
+
+    def read(self, *a):
+        return self._rd().read(*a)
+
+    def readline(self, *a):
+        return self._rd().readline(*a)
+
+    def readlines(self, *a):
+        return self._rd().readlines(*a)
+
+    def __iter__(self):
+        return iter(self._rd())
+
+    def close(self):
+        pass
+
+    def __getattr__(self, name):
+        if NATIVE or name.startswith("_"):
+            raise AttributeError(name)
+        raise core.Inconclusive("file.%s is not part of the file-system model" % name)
 
 
 class FakeUUID(object):
@@ -292,6 +349,8 @@ def check_step(fs, op, result, before, T, state):
         for p, data in fs.outside.items():
             if data is not None and before["outside"].get(p) != data:
                 bad.append("%s wrote through a planted symlink to %s" % (op, p))
+            if data is None and before["outside"].get(p) is not None:
+                bad.append("%s deleted %s, the target of a planted symlink" % (op, p))
     if op in ("read", "regenerate"):
         if isinstance(result, SystemExit):
             return bad          # the client refuses to continue on an invalid identifier file; no identifier is returned
@@ -495,6 +554,8 @@ def _native(case):
                         new = open(p).read() if os.path.exists(p) else None
                         if new != old and new is not None:
                             bad.append("step %d: %s wrote through a planted symlink to %s" % (i, op, p))
+                        if new is None and old is not None:
+                            bad.append("step %d: %s deleted %s, the target of a planted symlink" % (i, op, p))
                 if op in ("read", "regenerate") and not isinstance(res, SystemExit):
                     try:
                         ok = canonical(res) == res
